@@ -194,6 +194,78 @@ def check(run, prog, tier):
             run.ob("C19-c", "eventfd-write:%s" % f.name, ok, "writes %s to the eventfd counter%s" % (show(val) if val is not None else "?", "" if ok else " (not the constant 1; EFD_SEMAPHORE not set): two posts before the next read are added together"),
                    f.file, n.get("l"), f.name, what="%s encodes key/data in the eventfd counter: posts that pile up before the backend reads are merged into one event with a wrong key and data" % f.name)
 
+    # reader side of the pipe: what a read() takes out of the pipe is gone, so it must all be delivered
+    if not creates:
+        nread = 0
+        wsizes = {const_val(n["args"][2]) for f in efuncs for b, i, n in f.calls("write") if chan in show(n["args"][0]) and len(n.get("args", [])) > 2}
+        for f in efuncs:
+            for b, i, n in f.calls("read"):
+                if chan not in show(n["args"][0]) or len(n.get("args", [])) < 3:
+                    continue
+                nread += 1
+                run.saw(f)
+                sz = const_val(n["args"][2])
+                one = sz is not None and wsizes == {sz}
+                # the room test: the read is control-dependent on `count < capacity`
+                roomy = False
+                c = f.branch_cond(b)
+                conds = [g for g, t, gb in cfgq.guards(f, b.id) if t]
+                if c is not None:
+                    conds.append(c)
+                for g in conds:
+                    for x in walk(g):
+                        if x.get("k") == "Bin" and x.get("op") in ("<", ">") and {strip(x["L"]).get("d"), strip(x["R"]).get("d")} & {"param"} and {strip(x["L"]).get("d"), strip(x["R"]).get("d")} & {"local"}:
+                            roomy = True
+                bounded = (not one) and any(x.get("k") == "Ref" and x.get("d") == "param" for x in walk(n["args"][2]))
+                # every record taken is stored: from the success edge of the read, the loop cannot come back to the read (or leave)
+                # without a store into the caller's events array
+                stores = {b2.id for b2, i2, n2 in f.nodes() if n2.get("k") == "Asg" and strip(n2["L"]).get("k") == "Mem" and strip(strip(n2["L"])["b"]).get("k") == "Sub"
+                          and strip(strip(strip(n2["L"])["b"])["b"]).get("d") == "param"}
+                delivered = True
+                if c is not None and stores:
+                    e, t = normalize_cond(c, True)
+                    succ_ok = b.succ[0] if t else b.succ[1]
+                    if succ_ok is not None and succ_ok not in stores:
+                        # a test repeated between the read and the store has the outcome it had before the read
+                        # (nothing in between writes its operands): its other edge is not a path
+                        region = cfgq.reach_set(f, [succ_ok], avoid_blocks=stores | {b.id})
+                        written = set()
+                        for rb in region:
+                            if rb in stores:
+                                continue
+                            for e2 in f.blocks[rb].el:
+                                for x in walk(e2):
+                                    if x.get("k") == "Asg" and strip(x["L"]).get("k") == "Ref":
+                                        written.add(strip(x["L"]).get("n"))
+                                    if x.get("k") == "Un" and x.get("op") in ("++", "--") and strip(x["e"]).get("k") == "Ref":
+                                        written.add(strip(x["e"]).get("n"))
+                        held = {show(strip(g)): t for g, t, gb in cfgq.guards(f, b.id)}
+                        cut = []
+                        for rb in region:
+                            c2 = f.branch_cond(rb)
+                            if c2 is None or show(strip(c2)) not in held:
+                                continue
+                            if {x.get("n") for x in walk(c2) if x.get("k") == "Ref"} & written:
+                                continue
+                            blk2 = f.blocks[rb]
+                            dead = blk2.succ[1] if held[show(strip(c2))] else blk2.succ[0]
+                            if dead is not None:
+                                cut.append((rb, dead))
+                        p2 = f.reach_avoiding([succ_ok], lambda blk: blk.id == b.id or (f.exit in blk.live_succ()), avoid_blocks=stores, avoid_edges=cut)
+                        delivered = p2 is None
+                ok = (one and roomy and delivered) or (bounded and delivered)
+                why = []
+                if not one and not bounded:
+                    why.append("one read() takes %s bytes, the writers post records of %s bytes: more records than the events array may have room for leave the pipe" % (sz if sz is not None else show(n["args"][2]), sorted(x for x in wsizes if x)))
+                if one and not roomy:
+                    why.append("the read is not conditional on room in the caller's events array")
+                if not delivered:
+                    why.append("a path from the successful read returns to the read (or leaves) without storing the record")
+                run.ob("C19-c", "pipe-read:%s" % f.name, ok, "each read() takes one %s-byte record, only while the events array has room, and every record taken is stored" % sz if ok and one else
+                       ("the read length is bounded by the room in the events array and every record taken is stored" if ok else "; ".join(why)),
+                       f.file, n.get("l"), f.name, what="%s takes notification records out of the pipe that it cannot deliver: the completion is accepted (post returned 0) and never reaches the backend" % f.name)
+        run.need(nread >= 1, "read() from the notification pipe (found %d)" % nread)
+
     # ---- C19-d a variable a thread root writes is not also written by another thread once that thread exists
     run.rule("C19-d", "a non-atomic variable or field written by a thread root (timer thread, worker thread) is written by other threads only before the thread is created (the store precedes pthread_create in the same function) - two unsynchronised writers can overwrite each other's final value", 1)
     thread_side = {}
